@@ -4,6 +4,7 @@
    whole history; `txs_of` lists the messages written to pipes in writing order; `ppend`/`pupend` is what is queued
    (buffer, then the blocked Send calls in blocking order); `sub a b`: a is an order-preserving subsequence of b. *)
 From MV Require Import Model.PairPush Model.PairPushOracle Proofs.PairPushProofs.
+From MV Require Model.RaceCfg Model.SplitCs Proofs.SplitCsSound.
 From MV Require Import Model.Wakeup Proofs.WakeupProofs.
 Open Scope N_scope.
 
@@ -143,3 +144,12 @@ Theorem C02_push_conditional_signal_refuted :
                (forall es' s', wrun true s es' = Some s' -> w_sender s' = Waiting /\ w_infl s' = 0 /\ 2 <= w_q s' /\ 0 < w_ready s').
 Proof. exact conditional_signal_refuted. Qed.
 Print Assumptions C02_push_conditional_signal_refuted.
+
+(* ---- PAIR has one peer also when two connections attach at the same instant: the generated obligation
+   C02_gen_attach_check_and_store_atomic evaluates the check-then-act analysis (Model/SplitCs.v) on xpair / xpair1 /
+   xpush / xpull; for a function that passes, no path writes a field (the peer) on a reading made in an earlier
+   critical section ---- *)
+Theorem C02_check_then_act_all_paths : forall f entry, SplitCs.sp_func_ok f entry = true ->
+  forall p, SplitCsSound.sp_valid f 0 p = true -> SplitCsSound.sp_path f 0 (SplitCs.s0 entry) p = [].
+Proof. exact SplitCsSound.split_sound. Qed.
+Print Assumptions C02_check_then_act_all_paths.
